@@ -16,6 +16,11 @@ from .simdrv import Vars, run_sim, sym_env
 from .sym import SymInt, to_bv, to_cond, is_sym
 
 
+class StructuralMismatch(Exception):
+    """raised by an item's oracle when the real code's result has the wrong shape / kind: a violation candidate (structural
+    fact), not a harness error"""
+
+
 def I(w, name):
     return pyrtl.Input(w, name)
 
@@ -90,7 +95,11 @@ def check_item(ob, case, item, site, K=1):
             rs = run_sim(block, 1, v, kind=case.get('backend', 'sim'), reg_init='reset', mem_init='default', track='io',
                          assumptions=assume)
     ob.paths += len(rs)
-    exp = spec['oracle'](ins)
+    try:
+        exp = spec['oracle'](ins)
+    except StructuralMismatch as e:
+        ob.fact('result-shape', False, site + ':shape', detail=str(e))
+        return
     goals = []
     for r in rs:
         if r.exc is not None:
@@ -123,6 +132,12 @@ def replay_item(cex, item):
             return (not isinstance(e, pyrtl.PyrtlError)), 'elaboration raised %s: %s' % (type(e).__name__, e)
         return True, 'elaboration raised %s: %s' % (type(e).__name__, e)
     if cex.get('structural'):
+        if cex.get('obligation') == 'result-shape':
+            try:
+                spec['oracle']({w.name: 0 for w in block.wirevector_subset(pyrtl.Input)})
+            except StructuralMismatch as e:
+                return True, 'result shape: %s' % e
+            return False, 'result shape as documented'
         bad = ['%s len=%d documented=%d' % (n, len(spec['outs'][n]), w) for n, w in spec.get('widths', {}).items()
                if len(spec['outs'][n]) != w]
         if case.get('expect_error'):
